@@ -212,6 +212,15 @@ func genRich(t *core.Tape, tier, prop string) *Scenario {
 				}
 			}
 		}
+		if prop == "C02" && t.Bool(1, 5, "err.from.interceptor") {
+			// the error comes from a handler-side interceptor: user code never
+			// runs, nothing was sent before it
+			sc.Handlers[0].NIntercept = 1 + t.Choose(3, "nintercept")
+			p.InterceptorErr = true
+			p.HProg = nil
+			earlyExitKnobs(p) // the answer comes before the request is read, for every kind
+			sc.Notes["err_from_interceptor"]++
+		}
 		sc.Notes["fail_"+p.Kind.String()]++
 	} else {
 		sc.Notes["ok_"+p.Kind.String()]++
@@ -328,6 +337,9 @@ func checkC02(w *World, st core.Status, r *RunResult) []Violation {
 			continue
 		}
 		r.Probes["error_calls_checked"]++
+		if p.InterceptorErr && o.H.Entered != 0 {
+			add("user-code-ran-after-interceptor-error", fmt.Sprintf("entered %d times", o.H.Entered))
+		}
 		if !o.FinalSet {
 			add("no-outcome", "client program produced no final outcome")
 			continue
